@@ -39,14 +39,25 @@ META = dict(
 TFS = ['1m', '3m', '5m', '15m', '30m', '1h']
 
 
+# candle-reading policies: trading timeframe + data routes incl. larger NON-multiples of the trading timeframe (the chunk is
+# then smaller than both), nested ones as control
+READ_COMBOS = [('3m', ['5m']), ('30m', ['45m']), ('45m', ['1h']), ('5m', ['15m']), ('15m', []), ('3m', ['15m']), ('5m', []),
+               ('1m', ['3m']), ('15m', ['5m']), ('3m', ['5m', '15m'])]
+
+
 def gen_item(rng, idx, quick, ragged=False):
     typ = ['futures', 'spot'][idx % 2]
     ttf = TFS[(idx // 2) % len(TFS)]
+    reads = (idx % 4 == 3) and not ragged
     tt = R.TFM[ttf]
     bigger = [t for t in TFS + ['2h', '4h'] if R.TFM[t] > tt and R.TFM[t] % tt == 0]
     smaller = [t for t in TFS if 1 < R.TFM[t] < tt and tt % R.TFM[t] == 0]
     c = rng.random()
-    if c < 0.45 or not bigger:
+    if reads:
+        ttf, dtfs = READ_COMBOS[(idx // 4) % len(READ_COMBOS)]
+        dtfs = list(dtfs)
+        tt = R.TFM[ttf]
+    elif c < 0.45 or not bigger:
         dtfs = []
     elif c < 0.8:
         dtfs = [rng.choice(bigger)]
@@ -84,12 +95,13 @@ def gen_item(rng, idx, quick, ragged=False):
     return dict(typ=typ, nsym=1, ttf=ttf, dtfs=dtfs, warm=rng.choice([0, 0, 240]), n=n, seed=seed, policy=pol,
                 fee=rng.choice([0.0, 1 / 1024, 0.0006]), lev=rng.choice([1, 2, 5]),
                 levmode=rng.choice(['cross', 'cross', 'cross', 'isolated']), chunk=chunk, ragged=bool(ragged),
+                candle_policy=bool(reads),
                 walk=dict(step=step, wick=wick, gap_p=rng.choice([0.0, 0.1, 0.3]), start=200 + 8 * span + rng.choice([0, 37])))
 
 
 def side(r):
     return {"fills": [dict(side=f['side'], type=f['type'], qty=f['qty'], price=f['price'], minute=f['minute']) for f in r['fills']],
-            "trades": r['trades'], "bal": r['bal'], "liq": r['liq'], "exc": r['exc'], "hooks": r['hooks']}
+            "trades": r['trades'], "bal": r['bal'], "liq": r['liq'], "exc": r['exc'], "hooks": r['hooks'], "reads": r['reads']}
 
 
 def make_trace(tid, item, rn, rf):
